@@ -325,6 +325,30 @@ fn git_layer(ctx: &Ctx, quick: bool) -> Stats {
         }
         st
     }).reduce(Stats::default, Stats::merge);
+    // a linked worktree (its `.git` is a file): the main work tree sits clean on the tag, the linked one is ahead of it
+    let mut st = st;
+    {
+        let shape = Shape { parents: vec![vec![], vec![0], vec![1]], branches: [("main".to_string(), 0), ("feature/y".to_string(), 2)].into_iter().collect(), cur: "main".into(), ops: vec!["branch feature/y".into(), "commit".into(), "commit".into(), "checkout main".into()] };
+        let mut repo = Repo::create(&root, "lw", &shape, &gitx::dates(3, DateMode::Increasing));
+        repo.set_tags(&[Tag { name: "v1.0.0".into(), target: 0, annotated: false }]);
+        repo.set_head(&Head::Branch("main".into()));
+        for path in [root.join("lw_side"), repo.dir.join("ignored_nested_wt")] {
+            gitx::git(&repo.dir, &["worktree", "add", "-q", "-f", path.to_str().unwrap(), "feature/y"], None);
+            let dir = path.to_string_lossy().to_string();
+            let mut prev: Option<(String, String)> = None;
+            for fmt in ["semver", "pep440"] {
+                st.inc("git_states"); st.inc("runs");
+                let key = format!("linked worktree {} on feature/y, 2 commits after v1.0.0 [{fmt}]", if path.starts_with(&repo.dir) { "nested in the main work tree" } else { "beside the repository" });
+                match zv::run_cli(&["flow", "-C", &dir, "--output-format", fmt], None) {
+                    Ok(Res::Ok(out)) => { st.inc("active_cases"); if !(cmp_to(fmt, &out, [1, 0, 0]) == Some(Ordering::Greater) && cmp_to(fmt, &out, [1, 0, 1]) == Some(Ordering::Less)) { ctx.violation("git_version_outside_base_tag_window", key, json!({"kind":"git-linked-worktree","format":fmt}), format!("printed {out}; base tag v1.0.0, the linked worktree is 2 commits ahead")); } prev = Some((fmt.to_string(), out)); }
+                    other => ctx.violation("git_flow_failed", key, json!({"kind":"git-linked-worktree"}), format!("{other:?}")),
+                }
+            }
+            let _ = prev;
+            gitx::git(&repo.dir, &["worktree", "remove", "--force", path.to_str().unwrap()], None);
+        }
+        repo.remove();
+    }
     let _ = std::fs::remove_dir_all(&root);
     st
 }
